@@ -49,6 +49,12 @@ def _linalg_args(lem, rng):
         N = int(rng.integers(0, 5)); K = int(rng.integers(0, N + 1))
         mk = gens.bits(rng, N)
         return {'g': gens.bits(rng, 2 * int(mk.sum()) + 2), 'x': gens.bits(rng, 2 * N + 2), 'mask': mk, 'N': N, 'K': K}
+    if name == 'acq_local':
+        n = int(rng.integers(0, 4)); k = int(rng.integers(-1, n + 1))
+        x = np.zeros(2 * n + 2, dtype=np.int64)
+        if 0 <= k:
+            x[2 * k:2 * k + 2] = gens.bits(rng, 2)
+        return {'x': x, 'y': gens.bits(rng, 2 * n + 2), 'n': n, 'k': k}
     if name == 'acq_unit':
         n = int(rng.integers(0, 4)); mm = 2 * n + int(rng.integers(0, 3))
         return {'g': rng.integers(-1, 3, size=2 * n + 3), 'i': int(rng.integers(0, 2 * n + 2)), 'm': mm, 'n': n}
